@@ -335,6 +335,15 @@ def mk_select(c: Term, a: Term, b: Term) -> Term:
         return a
     if pc == FALSE:
         return b
+    if pc[0] == "lt":
+        # (a if a > b else b) == max(a, b) ; (a if a < b else b) == min(a, b)   [ties give equal values]
+        try:
+            if pc[1] == p_sub(b, a):        # a > b  -> a
+                return mk_call("max", [a, b])
+            if pc[1] == p_sub(a, b):        # a < b  -> a
+                return mk_call("min", [a, b])
+        except Exception:
+            pass
     return ("select", pc, a, b)
 
 
